@@ -56,18 +56,37 @@ fn enc_arr<K: BufKind>(p: &[u8]) -> bool {
 }
 
 fn history<K: BufKind>(i: &Input, obs: &mut Obs) -> Result<(), Fail> {
+    history_with::<K>(i, obs, true)?;
+    Ok(())
+}
+
+/// `finalize_first`: call finalize() before the usability probe. Without it the probe is only made when the very
+/// last byte of the history was answered with InvalidMessage / InvalidEsc / OutOfMemory - "every failure is reported
+/// as an error value, after which the same object remains usable": the transmission is over, the next one must decode.
+fn history_with<K: BufKind>(i: &Input, obs: &mut Obs, finalize_first: bool) -> Result<bool, Fail> {
     let who = format!("Decoder<{}<{}>>", K::NAME, K::CAP);
     let mut dec = Decoder::<K::B>::new();
     let mut n_err = 0u64;
     let mut state_at_call = Vec::new();
+    let mut ended_on_failure = false;
     for op in &i.ops {
+        ended_on_failure = false;
         match op {
             Op::Push(bytes) => {
                 for &b in bytes {
+                    ended_on_failure = false;
                     match dec.push_byte(b) {
                         Ok(None) => {}
-                        Ok(Some(_)) => obs.count("ok-events", 1),
+                        Ok(Some(_)) => {
+                            if finalize_first {
+                                obs.count("ok-events", 1)
+                            }
+                        }
                         Err(e) => {
+                            ended_on_failure = !matches!(e, DecodeErr::DiscardedBytes(_));
+                            if !finalize_first {
+                                continue;
+                            }
                             n_err += 1;
                             obs.class(format!("error:{}", match e {
                                 DecodeErr::DiscardedBytes(_) => "DiscardedBytes",
@@ -89,11 +108,19 @@ fn history<K: BufKind>(i: &Input, obs: &mut Obs) -> Result<(), Fail> {
             }
         }
     }
-    for s in state_at_call {
-        obs.class(s);
+    if finalize_first {
+        for s in state_at_call {
+            obs.class(s);
+        }
+    } else if !ended_on_failure {
+        return Ok(false);
+    } else {
+        obs.class("usability:directly-after-an-error-value");
     }
     // usability: the same object must still decode a valid frame
-    dec.finalize();
+    if finalize_first {
+        dec.finalize();
+    }
     if i.m.len() <= K::CAP {
         let f = ref_frame(&i.m);
         let mut evs = Vec::new();
@@ -110,8 +137,9 @@ fn history<K: BufKind>(i: &Input, obs: &mut Obs) -> Result<(), Fail> {
         ensure!(
             evs == want,
             "object-unusable-after-history",
-            "{who}: after the call history [{}] and finalize(), pushing {}the frame of payload {} yields {}; expected {}",
+            "{who}: after the call history [{}]{}, pushing {}the frame of payload {} yields {}; expected {}",
             show_ops(&i.ops),
+            if finalize_first { " and finalize()" } else { " (whose last byte was answered with an error value; no finalize() / reset())" },
             if stray { "one stray byte and " } else { "" },
             hex_short(&i.m, 40),
             drive::show_pos(&evs),
@@ -119,8 +147,14 @@ fn history<K: BufKind>(i: &Input, obs: &mut Obs) -> Result<(), Fail> {
         );
         ensure!(dec.finalize().is_none(), "object-unusable-after-history", "{who}: finalize() after the final frame reports leftover");
     }
-    obs.count("error-events", n_err);
-    Ok(())
+    if finalize_first {
+        obs.count("error-events", n_err);
+        if ended_on_failure {
+            // once more from the start, this time without finalize() in front of the probe
+            history_with::<K>(i, obs, false)?;
+        }
+    }
+    Ok(ended_on_failure)
 }
 
 pub fn show_ops(ops: &[Op]) -> String {
